@@ -34,6 +34,7 @@ pub fn main(args: &Args) -> i32 {
         msg: 6,
         redeliver: 10,
         restart: 1,
+        reinvite: true,
         ..Weights::default()
     };
     let spec = Spec {
